@@ -93,8 +93,9 @@ def check(ctx):
     rnd_main, rnd_sp = [], []
     for i in range(1200 if ctx.thorough else 300):
         cap = ctx.rng.choice([1, 2, 3, 5])
-        rnd_main += vc.random_script(ctx.rng, "svec", "tracked" if i % 3 else "int", cap, 60)
-        rnd_sp += vc.random_script(ctx.rng, "svec", "tracked" if i % 3 else "int", cap, 60, old_iface=True)
+        el = "tracked" if i % 3 else ("int" if i % 2 else "sp")      # sp: trivially destructible, not trivially copyable (self pointer)
+        rnd_main += vc.random_script(ctx.rng, "svec", el, cap, 60)
+        rnd_sp += vc.random_script(ctx.rng, "svec", el, cap, 60, old_iface=True)
     for el in ("tracked", "int"):
         rnd_main += vc.big_static_script(ctx.rng, el)
         rnd_sp += vc.big_static_script(ctx.rng, el, old_iface=True)
